@@ -101,9 +101,12 @@ def discharge(ob: Obligation, *, thorough=False, timeout_ms=None, keep_smt2=Fals
         return res
     if ob.kind == 'exists':
         # synthesis query: discharged iff the constraints are satisfiable; the model is the certificate
-        s = z3.Solver(); s.set('timeout', timeout_ms or 60000); s.set('random_seed', 0)
-        for h in ob.hyps: s.add(h)
-        r = s.check()
+        # wall-clock budgets must not flip a verdict when every core is busy: a timeout is retried once with ten times the budget
+        for budget in ((timeout_ms or 60000), 10 * (timeout_ms or 60000)):
+            s = z3.Solver(); s.set('timeout', budget); s.set('random_seed', 0)
+            for h in ob.hyps: s.add(h)
+            r = s.check()
+            if r != z3.unknown or 'timeout' not in s.reason_unknown() and 'canceled' not in s.reason_unknown(): break
         res.backend = 'z3-5.1(synthesis)'
         if r == z3.sat:
             res.status = 'discharged'
@@ -126,6 +129,10 @@ def discharge(ob: Obligation, *, thorough=False, timeout_ms=None, keep_smt2=Fals
         except Exception: pass
     try:
         r = s.check()
+        if r == z3.unknown and ('timeout' in s.reason_unknown() or 'canceled' in s.reason_unknown()):
+            # same query, ten times the wall-clock budget (load on the machine must not turn a proof into "undecided")
+            s.set('timeout', 10 * (timeout_ms or Z3_TIMEOUT_MS))
+            r = s.check()
     except z3.Z3Exception as e:
         res.status, res.detail = 'error', f'z3: {e}'
         res.seconds = time.time() - t0
